@@ -1,11 +1,146 @@
-(* C13 — Morphology metrics equal their definition on every tree. *)
-From Coq Require Import List ZArith QArith.
-From LNML Require Import Model.Morph Proofs.MorphP.
+(* C13 — Morphology metrics equal their definition on every tree.
+
+   Model:  Model/Morph.v mirrors the Cell helper methods on the segment list in document order.
+   Domain: wf c = the segments form a rooted tree (built from a parentless root by adding segments with a fresh id
+           under an existing parent), in ANY document order, with ANY ids and ANY fraction_along;
+           root_has_prox c = the parentless segment carries its own proximal point.
+   Definition side (Model/Morph.v, bottom): ActProx (effective proximal point), DistRoot (distance from the root),
+           children (in document order), gpath (paths of the graph with their weights).
+   `len` is an arbitrary length function in the graph / ordering theorems; at run time it is the table of
+           seg_length values (C13_segment_length says what those are).
+   No theorem bounds the size, depth or branching of the tree. *)
+From Coq Require Import List ZArith QArith Sorted Permutation.
+From LNML Require Import Model.Morph Proofs.MorphP Proofs.MorphP1 Proofs.MorphP2 Proofs.MorphP3 Proofs.MorphP4 Proofs.MorphP5.
 Import ListNotations.
 Open Scope Z_scope.
 
-(* the parent-to-children adjacency list: children in document order, for every segment list *)
+(* 1. effective proximal point: computed for every segment, and it is the segment's own point or else the point at
+      fraction_along on the parent (recursively); the definition determines it uniquely *)
+Theorem C13_actual_proximal : forall c s, wf c -> root_has_prox c -> In s c ->
+  exists p, actual_prox (fuel_of c) c (sid s) = Ok p /\ ActProx c (sid s) p.
+Proof. exact actual_prox_spec. Qed.
+Print Assumptions C13_actual_proximal.
+
+Theorem C13_actual_proximal_unique : forall c id p q, wf c -> ActProx c id p -> ActProx c id q -> pt_eq p q.
+Proof. exact actprox_unique_wf. Qed.
+Print Assumptions C13_actual_proximal_unique.
+
+(* 2. segment length = Euclidean distance from the effective proximal point to the distal point *)
+Theorem C13_segment_length : forall c s l, wf c -> root_has_prox c -> In s c ->
+  seg_length (fuel_of c) c (sid s) = Ok l ->
+  exists p, ActProx c (sid s) p /\ (l * l == sqdist p (sdist s))%Q /\ (0 <= l)%Q.
+Proof. exact seg_length_spec. Qed.
+Print Assumptions C13_segment_length.
+
+(* 3. adjacency list: the children in document order; no entry for a segment without children (every segment list) *)
 Theorem C13_adjacency : forall c p,
   alookup (adjacency c) p = match children c p with [] => None | l => Some l end.
 Proof. exact adjacency_spec. Qed.
 Print Assumptions C13_adjacency.
+
+(* 4. graph: every segment is a node; one edge parent -> child per segment with a parent, weight len(parent)*fraction *)
+Theorem C13_graph : forall len c, wf c ->
+  exists g, get_graph len c = Ok g /\
+    (forall n, In n (gnodes g) <-> In n (ids c)) /\
+    (forall a b w, In (a, b, w) (gedges g) <->
+                   exists s f, In s c /\ sid s = b /\ sparent s = Some (a, f) /\ w = (len a * f)%Q).
+Proof. exact graph_spec. Qed.
+Print Assumptions C13_graph.
+
+(* 5. root, branch points, tips *)
+Theorem C13_root : forall len c, wf c ->
+  exists r, In r c /\ sparent r = None /\ morphology_root c (graph_of len c) = Ok (sid r).
+Proof. exact morphology_root_spec. Qed.
+Print Assumptions C13_root.
+
+Theorem C13_branching_points : forall len c n, wf c ->
+  (In n (branching_points (graph_of len c)) <-> In n (ids c) /\ (2 <= length (children c n))%nat).
+Proof. exact branching_points_spec. Qed.
+Print Assumptions C13_branching_points.
+
+Theorem C13_tips : forall len c, wf c ->
+  exists l, extremities (fuel_of c) c (graph_of len c) = Ok l /\
+            (forall t d, In (t, d) l -> In t (ids c) /\ children c t = [] /\ DistRoot len c t d) /\
+            (forall t, In t (ids c) -> children c t = [] -> exists d, In (t, d) l).
+Proof. exact extremities_spec. Qed.
+Print Assumptions C13_tips.
+
+(* 6. distance from the root through the graph, for ANY implementation of Dijkstra that on this directed tree returns
+      the weight of a path when it returns, and returns whenever a path exists (the networkx hypotheses) *)
+Theorem C13_distance_any_dijkstra : forall (nx : graph -> Z -> Z -> res Q) len c, wf c ->
+  (forall s t d, nx (graph_of len c) s t = Ok d -> exists d', gpath (graph_of len c) s t d' /\ (d == d')%Q) ->
+  (forall s t d, In s (gnodes (graph_of len c)) -> gpath (graph_of len c) s t d -> exists d', nx (graph_of len c) s t = Ok d') ->
+  forall r, In r c -> sparent r = None ->
+  (forall t d, nx (graph_of len c) (sid r) t = Ok d -> DistRoot len c t d) /\
+  (forall s, In s c -> exists d, nx (graph_of len c) (sid r) (sid s) = Ok d) /\
+  (forall s t d ds, nx (graph_of len c) s t = Ok d -> DistRoot len c s ds -> DistRoot len c t (ds + d)%Q).
+Proof. exact any_dijkstra_spec. Qed.
+Print Assumptions C13_distance_any_dijkstra.
+
+(* the executable Dijkstra-on-a-tree of the model (the one run against networkx) satisfies both hypotheses *)
+Theorem C13_model_dijkstra_meets_hypotheses : forall len c, wf c ->
+  (forall s t d, nx_dist (fuel_of c) (graph_of len c) s t = Ok d -> exists d', gpath (graph_of len c) s t d' /\ (d == d')%Q) /\
+  (forall s t d, In s (gnodes (graph_of len c)) -> gpath (graph_of len c) s t d ->
+                 exists d', nx_dist (fuel_of c) (graph_of len c) s t = Ok d').
+Proof. exact model_dijkstra_meets_hypotheses. Qed.
+Print Assumptions C13_model_dijkstra_meets_hypotheses.
+
+Theorem C13_distance_from_root : forall len c r s, wf c -> In r c -> sparent r = None -> In s c ->
+  exists d, nx_dist (fuel_of c) (graph_of len c) (sid r) (sid s) = Ok d /\ DistRoot len c (sid s) d.
+Proof. exact nx_dist_root_total. Qed.
+Print Assumptions C13_distance_from_root.
+
+Theorem C13_distance_unique : forall len c id d e, wf c -> DistRoot len c id d -> DistRoot len c id e -> (d == e)%Q.
+Proof. exact distroot_unique_wf. Qed.
+Print Assumptions C13_distance_unique.
+
+(* 7. all distances from a segment: exactly the segments reachable by a path, each with the path's weight *)
+Theorem C13_all_distances : forall len c src, wf c -> In src (ids c) ->
+  exists l, nx_sssp (fuel_of c) (graph_of len c) src None = Ok l /\
+    (forall t d p, In (t, d, p) l -> exists w, gpath (graph_of len c) src t w /\ (d == w)%Q) /\
+    (forall t w, gpath (graph_of len c) src t w -> exists d p, In (t, d, p) l /\ (d == w)%Q).
+Proof. exact nx_sssp_spec. Qed.
+Print Assumptions C13_all_distances.
+
+(* 8. segments at distance d from src: those of non-zero length below src that contain the point at distance d,
+      with the fraction along them (0 <= fraction <= 1) *)
+Theorem C13_segments_at_distance_sound : forall len c dist src l t fr, wf c ->
+  segments_at_distance (fuel_of c) len (graph_of len c) dist src = Ok l -> In (t, fr) l ->
+  exists dt w, gpath (graph_of len c) src t w /\ (dt == w)%Q /\ ~ (len t == 0)%Q /\
+               fr = ((dist - dt) / len t)%Q /\ (fr <= 1)%Q /\ (t = src \/ (dt <= dist)%Q).
+Proof. exact segments_at_distance_sound. Qed.
+Print Assumptions C13_segments_at_distance_sound.
+
+Theorem C13_segments_at_distance_complete : forall len c dist src t w, wf c -> In src (ids c) ->
+  (forall s p f, In s c -> sparent s = Some (p, f) -> (0 <= len p * f)%Q) ->
+  gpath (graph_of len c) src t w -> (w <= dist)%Q -> ~ (len t == 0)%Q -> ((dist - w) / len t <= 1)%Q ->
+  exists l fr, segments_at_distance (fuel_of c) len (graph_of len c) dist src = Ok l /\ In (t, fr) l /\
+               (fr == (dist - w) / len t)%Q.
+Proof. exact segments_at_distance_complete. Qed.
+Print Assumptions C13_segments_at_distance_complete.
+
+(* 9. get_ordered_segments_in_groups: sorted by id; path length to the proximal end = distance from the root by the
+      definition whichever branch of the loop computed it (any id order, any group selection), to the distal end = that
+      plus the length; cumulative lengths = running sums in id order *)
+Theorem C13_ordered_segments : forall len c, wf c -> forall grp, (forall id, In id grp -> In id (ids c)) ->
+  exists o st, ordered_run (fuel_of c) len c grp = Ok (o, st) /\
+    Permutation o grp /\ StronglySorted Z.le o /\
+    (forall id, In id grp -> exists v, alookup (o_pp st) id = Some v /\ DistRoot len c id v /\
+                                      alookup (o_pd st) id = Some (v + len id)%Q) /\
+    o_cum st = prefix_sums 0%Q (map len o).
+Proof. exact ordered_run_spec. Qed.
+Print Assumptions C13_ordered_segments.
+
+(* 10. the graph-based and the ordered-segments results agree with each other *)
+Theorem C13_methods_agree : forall len c grp o st r id d v, wf c ->
+  ordered_run (fuel_of c) len c grp = Ok (o, st) -> (forall x, In x grp -> In x (ids c)) ->
+  In r c -> sparent r = None ->
+  nx_dist (fuel_of c) (graph_of len c) (sid r) id = Ok d ->
+  alookup (o_pp st) id = Some v -> In id grp -> (d == v)%Q.
+Proof. exact methods_agree_wf. Qed.
+Print Assumptions C13_methods_agree.
+
+(* the hypotheses are satisfiable: a 4-segment cell with root id 3, see Proofs/MorphP5.v *)
+Theorem C13_domain_inhabited : wf ex_cell /\ root_has_prox ex_cell.
+Proof. exact domain_inhabited. Qed.
+Print Assumptions C13_domain_inhabited.
